@@ -27,3 +27,6 @@ ASSUMPTIONS = [
     "tsamp compared to 1e-12 relative, tstart to 5e-6 s, dm to 1e-9 relative (.inf is a text format)",
     "NaN payloads are only round-tripped when the in-memory dtype is float32",
 ]
+
+# dimensions added in seeded rounds 6 and 7
+PROBES = list(PROBES) + ["output-path-held-a-longer-file"]
